@@ -27,13 +27,15 @@ VARIABLE l
 ObsHdrSets == SUBSET Hdrs
 ObsMethods == {"GET", "POST", "CONNECT", "EXT"}
 ObsSchemes == {"http", "https", "ws", "wss", "other"}
+ObsSeqDom == [alpn |-> Alpns, method |-> ObsMethods, scheme |-> ObsSchemes, host |-> HostKinds, port |-> Ports,
+              path |-> Paths, hdrs |-> SUBSET Hdrs]
 
 Range(s) == {s[i] : i \in DOMAIN s}
 Cat(s) == LET F[i \in 0..Len(s)] == IF i = 0 THEN "" ELSE F[i-1] \o s[i] IN F[Len(s)]
 
 R == Rec[l]
 \* the abstract vector of the record (JSON arrays are sequences: the header subset becomes a set again)
-RV == IF R.v.kind = "req" THEN [R.v EXCEPT !.hdrs = Range(@)] ELSE R.v
+RV == IF R.v.kind \in {"req", "seq"} THEN [R.v EXCEPT !.hdrs = Range(@)] ELSE R.v
 Mode == R.c.mode
 Parts == R.c.parts
 Sub(tok) == CASE tok = "HOST" -> Parts.host_lc
@@ -48,10 +50,18 @@ Inst(t) == Cat([i \in DOMAIN t |-> Sub(t[i])])
 
 RealProto == R.o.proto
 \* the vector the req-clauses are evaluated for: as given (layers), or with the protocol the real connection speaks (e2e)
-ReqVec == IF Mode = "e2e" /\ RealProto \in ConnVers THEN [RV EXCEPT !.conn = RealProto] ELSE RV
-SelVec == IF Mode = "e2e" THEN [kind |-> "sel", rv |-> RV.rv, alpn |-> R.c.alpn] ELSE RV
+\* modes "client1"/"client2": the two requests of a run through the real Client::builder() client.  client1 opens the
+\* connection (judged like an e2e run); client2 (a "seq" vector) is served by a pooled connection: its request clauses are
+\* evaluated for the protocol of the connection it REALLY went out on, and the selection clause for the request that
+\* opened that connection (prv) when it was reused, for its own version if the client dialled again.
+WireModes == {"e2e", "client1", "client2"}
+ReqVec == IF RV.kind = "seq" THEN AsReq(RV, IF RealProto \in ConnVers THEN RealProto
+                                            ELSE ExpProto([rv |-> RV.prv, alpn |-> RV.alpn]))
+          ELSE IF Mode \in WireModes /\ RealProto \in ConnVers THEN [RV EXCEPT !.conn = RealProto] ELSE RV
+SelVec == IF Mode = "client2" THEN [kind |-> "sel", rv |-> IF R.o.reused THEN RV.prv ELSE RV.rv, alpn |-> RV.alpn]
+          ELSE IF Mode \in WireModes THEN [kind |-> "sel", rv |-> RV.rv, alpn |-> R.c.alpn] ELSE RV
 ReqObs == [kind   |-> R.o.kind,
-           target |-> IF RV.kind = "req" /\ RV.method = "CONNECT" THEN R.o.target_lc ELSE R.o.target,
+           target |-> IF RV.kind \in {"req", "seq"} /\ RV.method = "CONNECT" THEN R.o.target_lc ELSE R.o.target,
            hosts  |-> R.o.hosts_lc, ver |-> R.o.ver, hdrs |-> Range(R.o.hdrs)]
 SelObs == [kind |-> IF RealProto \in ConnVers THEN "connected" ELSE R.o.kind, proto |-> RealProto]
 
@@ -59,16 +69,17 @@ ObsInit == /\ l \in 1..N
            /\ vec = "observed" /\ stage = "observed" /\ req = "observed"   \* the record itself stays in Rec[l]
 ObsNext == UNCHANGED <<l, vars>>
 
-WellFormed == /\ Mode \in {"layers", "sel", "e2e"}
+WellFormed == /\ Mode \in {"layers", "sel", "e2e", "client1", "client2"}
+              /\ (Mode = "client2") = (RV.kind = "seq")
               /\ (Mode = "sel") = (RV.kind = "sel")
               /\ RV \in Vectors
-              /\ (Mode = "e2e" => R.c.alpn \in Alpns)
+              /\ (Mode \in WireModes => R.c.alpn \in Alpns)
               /\ R.o.kind \in {"sent", "error", "panicked", "pending", "timeout", "answered_without_send", "error_after_send"}
 
 \* THE PROPERTY
-ObsSelect == Mode \in {"sel", "e2e"} => C13select(SelVec, SelObs)
-ObsReq    == Mode \in {"layers", "e2e"} => C13(ReqVec, ReqObs, Inst)
-ObsPreset == Mode \in {"layers", "e2e"} /\ ReqVec.conn = "h1" /\ RV.preset # "none" /\ R.o.kind = "sent"
+ObsSelect == Mode \in {"sel"} \cup WireModes => C13select(SelVec, SelObs)
+ObsReq    == Mode \in {"layers"} \cup WireModes => C13(ReqVec, ReqObs, Inst)
+ObsPreset == Mode \in {"layers"} \cup WireModes /\ ReqVec.conn = "h1" /\ RV.preset # "none" /\ R.o.kind = "sent"
                 => R.o.hosts = <<Parts.preset>>
 Holds == ObsSelect /\ ObsReq /\ ObsPreset
 
@@ -91,9 +102,10 @@ ObsC13 == Holds \/ ~PrintT(<<"BAD", ToJson([i |-> l, mode |-> Mode, clause |-> C
 
 \* conformance with the transcription in the components the text does not name (DRIFT only)
 Exp == Expected(ReqVec)
-Conforms == Mode \in {"layers", "e2e"} /\ Holds =>
+Conforms == Mode \in {"layers"} \cup WireModes /\ Holds =>
               /\ R.o.kind = Exp.kind
-              /\ (Mode = "e2e" => R.o.dials = 1 /\ R.o.requests = (IF Exp.kind = "sent" THEN 1 ELSE 0))
+              /\ (Mode \in WireModes => R.o.dials = 1 /\ R.o.requests = (IF Exp.kind = "sent" THEN 1 ELSE 0))
+              /\ (Mode = "client2" => R.o.reused)
               /\ Exp.kind = "sent" =>
                    /\ Len(R.o.others) = 2
                    \* (on the wire hyper itself drops some headers, e.g. transfer-encoding without a body)
@@ -102,7 +114,7 @@ Conforms == Mode \in {"layers", "e2e"} /\ Holds =>
                    /\ (Mode = "layers" /\ ReqVec.conn = "h2" => R.o.target = R.c.uri_display)
                    /\ ReqVec.conn = "h1" =>
                                             /\ (Mode = "layers" => R.o.ver = Exp.ver)
-                                            /\ (Mode = "e2e" => R.o.ver = "1.1")
+                                            /\ (Mode \in WireModes => R.o.ver = "1.1")
 ObsDrift == Conforms \/ PrintT(<<"DIFF", ToJson([i |-> l])>>)
 
 Consumed == PrintT(<<"CONSUMED", TLCGet("stats").distinct, N>>) /\ TLCGet("stats").distinct = N
